@@ -428,3 +428,6 @@ def finish(stats, tier):
         if not c.get(need):
             out.append("no %s in any recorded history" % need)
     return out
+
+
+RULE += ' Since round 11 also: every read fault together with a fault of the next / next but one call; a warning is required whenever EIO/EACCES faults leave an entry out.'
